@@ -3,10 +3,14 @@
 // compaction, out-of-order merge, reopen) build layouts with memtable rows, ordered and out-of-order files and several
 // segments per series (max-rows-per-segment = 8, 24 timestamps). At check points the harness issues, through the store-side reader the
 // planner would build (LogicalPlanBuilder series/measurement plan -> ChunkReader over shard.CreateCursor):
-//     SELECT f(x)[, g(y)[, h(z)]] FROM m WHERE <range> [AND <field filter>] GROUP BY [time(w),] host
+//
+//	SELECT f(x)[, g(y)[, h(z)]] FROM m WHERE <range> [AND <field filter>] GROUP BY [time(w),] host
+//
 // (f,g,h in count,sum,min,max,first,last over mostly different fields; mean as the sum/count pair)
 // with and without the exact-statistics hint, and the paired plain select
-//     SELECT x FROM m WHERE <range> [AND <field filter>] GROUP BY host        (one per field)
+//
+//	SELECT x FROM m WHERE <range> [AND <field filter>] GROUP BY host        (one per field)
+//
 // Range ends are placed on / next to the time ranges of files and segments. DIRECT ORACLE: combining the partial results
 // the reader emits (what the executor's upper aggregation does: sum of counts and sums, min of mins, ...) must equal
 // the function applied to the rows of the paired plain select - whenever the hint is given, or a field filter or a time
@@ -57,51 +61,63 @@ type Agg struct {
 	Group  string `json:"group"` // host[/bucket]
 	Null   bool   `json:"null"`
 	V      int64  `json:"v"`
-	T      int    `json:"t"` // time index of the selected point (first/last/min/max), -1 when not applicable
+	Cnt    int64  `json:"cnt"` // mean: the count part (V is the sum part)
+	T      int    `json:"t"`   // time index of the selected point (first/last/min/max), -1 when not applicable
 	Rows   []PRow `json:"rows"`
 	WantOK bool   `json:"want_ok"`
 }
 
 type Check struct {
-	Op       int    `json:"op"`
-	SQL      string `json:"sql"`
-	Plain    string `json:"plain"`
-	Fn       string `json:"fn"`    // first call (kept for single-call corpus cases)
-	Field    int    `json:"field"` // first call
-	Calls    []Call `json:"calls"`
-	Lo       int    `json:"lo"`
-	Hi       int    `json:"hi"`
-	Hint     bool   `json:"hint"`
-	Filter   bool   `json:"filter"`
-	Bucket   int    `json:"bucket"` // seconds, 0 none
-	PreAgg   bool   `json:"preagg"` // the shard classified the statement as eligible for the statistics shortcut
-	Compared bool   `json:"compared"`
-	Skipped  string `json:"skipped,omitempty"`
-	Groups   []Agg  `json:"groups"`
-	Fail     string `json:"fail,omitempty"`
+	Op         int                 `json:"op"`
+	SQL        string              `json:"sql"`
+	Plain      string              `json:"plain"`
+	Fn         string              `json:"fn"`    // first call (kept for single-call corpus cases)
+	Field      int                 `json:"field"` // first call
+	Calls      []Call              `json:"calls"`
+	Lo         int                 `json:"lo"`
+	Hi         int                 `json:"hi"`
+	Hint       bool                `json:"hint"`
+	Filter     bool                `json:"filter"`
+	Bucket     int                 `json:"bucket"`               // seconds, 0 none
+	Desc       bool                `json:"desc"`                 // ORDER BY time DESC
+	GroupBy    string              `json:"group_by"`             // "host" (one series per group), "zone" (several), "" (no tag grouping)
+	TagFilter  string              `json:"tag_filter,omitempty"` // additional tag predicate of the WHERE clause
+	GroupHosts map[string][]string `json:"group_hosts,omitempty"`
+	PreAgg     bool                `json:"preagg"` // the shard classified the statement as eligible for the statistics shortcut
+	Compared   bool                `json:"compared"`
+	Skipped    string              `json:"skipped,omitempty"`
+	Groups     []Agg               `json:"groups"`
+	Fail       string              `json:"fail,omitempty"`
 	// SigChunkTime: groups (hosts) for which some file holds a chunk of >= 2 segments that the range enters after its
 	// first row (first) / leaves before its last row (last) - where FirstLastReader may report the chunk's time
 	SigChunkTime []string `json:"sig_chunk_time,omitempty"`
 	// SigMemLast: "col:host" for last() calls on the shortcut path where the memtable holds, inside the range, a row
 	// carrying another selected field LATER than its last row carrying this call's field
 	SigMemLast []string `json:"sig_mem_last,omitempty"`
+	// SigDup: hosts with a (series, time) inside the range that was written in more than one flush generation
+	SigDup     []string `json:"sig_dup,omitempty"`
 	FailGroups []string `json:"fail_groups,omitempty"`
 	FailCols   []string `json:"fail_cols,omitempty"` // "col:group" of every failing result
 }
 
 type History struct {
-	Case    int     `json:"case"`
-	NSer    int     `json:"nser"`
-	NoDup   bool    `json:"nodup_mode"`
-	Dup     bool    `json:"dup"` // some (series,time) was written in more than one flush generation
-	Ops     []Op    `json:"ops"`
-	Checks  []Check `json:"checks"`
-	Files   int     `json:"files"`
-	OOO     int     `json:"ooo_files"`
-	MaxSegs int     `json:"max_segments"`
-	Crash   string  `json:"crash,omitempty"`
+	Case    int            `json:"case"`
+	NSer    int            `json:"nser"`
+	NoDup   bool           `json:"nodup_mode"`
+	Dup     bool           `json:"dup"` // some (series,time) was written in more than one flush generation
+	Ops     []Op           `json:"ops"`
+	Checks  []Check        `json:"checks"`
+	Files   int            `json:"files"`
+	OOO     int            `json:"ooo_files"`
+	MaxSegs int            `json:"max_segments"`
+	Crash   string         `json:"crash,omitempty"`
 	mem     map[[2]int]int // unflushed rows: (series,time) -> mask of fields written since the last flush / reopen
-	Fix     string  `json:"fix,omitempty"` // corpus cases: "field,lo,hi,fn" - every Q issues exactly this shortcut-path statement
+	Fix     string         `json:"fix,omitempty"` // corpus cases: "field,lo,hi,fn" - every Q issues exactly this shortcut-path statement
+	// Chunks: every (data file, series) the history produced: decoded segments, stored statistics, pre-aggregation reads
+	Chunks    []ChunkDump `json:"chunks"`
+	ChunkErr  string      `json:"chunk_err,omitempty"`
+	seenChunk map[string]bool
+	dupKeys   map[[2]int]bool // (series, time) written in more than one flush generation so far
 }
 
 // ---- generation ----
@@ -179,7 +195,7 @@ func (g *genState) batch() []tsdrv.Row {
 }
 
 func genHistory(r *gen.Rand) (int, bool, []Op) {
-	g := &genState{r: r, nser: r.Range(1, 2), now: r.Range(1, 3), nodup: r.Chance(3, 5), seen: map[[2]int]int{}}
+	g := &genState{r: r, nser: r.Range(1, 3), now: r.Range(1, 3), nodup: r.Chance(3, 5), seen: map[[2]int]int{}}
 	n := r.Range(6, 16)
 	var ops []Op
 	for len(ops) < n {
@@ -254,12 +270,28 @@ func bucketOf(t int, w int) int {
 	return tsdrv.IdxOf(ns - ns%wn)
 }
 
-// boundary-biased range ends: on / next to the per-series time ranges of the files
-func pickRange(r *gen.Rand, files []tsdrv.File) (int, int) {
+// boundary-biased range ends: on / next to the per-series time ranges of the files, the time ranges of the SEGMENTS of
+// every chunk seen so far, and (for bucketed statements) the bucket boundaries
+func pickRange(r *gen.Rand, files []tsdrv.File, chunks []ChunkDump, bucket int) (int, int) {
 	var cands []int
 	for _, f := range files {
 		for _, s := range f.Series {
 			cands = append(cands, s.MinT-1, s.MinT, s.MinT+1, s.MaxT-1, s.MaxT, s.MaxT+1, (s.MinT+s.MaxT)/2)
+		}
+	}
+	for _, ch := range chunks {
+		if len(ch.Ranges) < 2 {
+			continue
+		}
+		for _, rg := range ch.Ranges {
+			cands = append(cands, rg[0]-1, rg[0], rg[1], rg[1]+1)
+		}
+	}
+	if bucket > 0 {
+		for t := 0; t < NT; t++ {
+			if tsdrv.TimeOf(t)%(int64(bucket)*1e9) == 0 {
+				cands = append(cands, t-1, t, t, t+1)
+			}
 		}
 	}
 	pick := func() int {
@@ -287,6 +319,43 @@ type Call struct {
 	Field int    `json:"field"`
 }
 
+// tag predicates carry the ::tag cast: the export does not run the compiler pass that types the VarRefs of the condition
+var tagFilters = []string{"host::tag = 'h0'", "host::tag != 'h0'", "zone::tag = 'z1'", "zone::tag = 'z0'"}
+
+func zoneOfHost(host string) string {
+	if len(host) > 1 {
+		if n, err := strconv.Atoi(host[1:]); err == nil {
+			return "z" + strconv.Itoa(n%2)
+		}
+	}
+	return ""
+}
+
+// groupOfHost: the group a series (host) belongs to under the statement's GROUP BY
+func groupOfHost(groupBy, host string) string {
+	switch groupBy {
+	case "host":
+		return host
+	case "zone":
+		return zoneOfHost(host)
+	}
+	return "*"
+}
+
+func tagFilterKeeps(tf string, host string) bool {
+	switch tf {
+	case tagFilters[0]:
+		return host == "h0"
+	case tagFilters[1]:
+		return host != "h0"
+	case tagFilters[2]:
+		return zoneOfHost(host) == "z1"
+	case tagFilters[3]:
+		return zoneOfHost(host) == "z0"
+	}
+	return true
+}
+
 func (h *History) query(sh *tsdrv.Shard, opi int, r *gen.Rand, files []tsdrv.File) {
 	// 1-3 aggregates, mostly over DIFFERENT fields (a column all-null in one container must not disturb the others)
 	ncall := 1
@@ -307,10 +376,17 @@ func (h *History) query(sh *tsdrv.Shard, opi int, r *gen.Rand, files []tsdrv.Fil
 		for !fnApplies(fn, f) {
 			fn = gen.Pick(r, fns)
 		}
+		if f <= 1 && r.Chance(1, 7) {
+			fn = "mean" // first-class mean(x): the reader ships sum(x) and count(x)
+		}
 		dupCall := false
 		for _, cl := range calls {
 			if cl.Fn == fn && cl.Field == f {
 				dupCall = true // the statement compiler folds identical calls into one column
+			}
+			isSC := func(x string) bool { return x == "mean" || x == "sum" || x == "count" }
+			if cl.Field == f && isSC(cl.Fn) && isSC(fn) && (cl.Fn == "mean" || fn == "mean") {
+				dupCall = true // mean(x) ships sum(x) and count(x): would be folded with an explicit sum(x) / count(x)
 			}
 		}
 		if dupCall {
@@ -319,7 +395,7 @@ func (h *History) query(sh *tsdrv.Shard, opi int, r *gen.Rand, files []tsdrv.Fil
 		used[f] = true
 		calls = append(calls, Call{fn, f})
 	}
-	if r.Chance(1, 10) { // mean(x) = sum(x)/count(x): the planner ships exactly this pair
+	if r.Chance(1, 12) { // the explicit sum/count pair
 		f := r.Intn(2)
 		calls = []Call{{"sum", f}, {"count", f}}
 		if r.Bool() {
@@ -327,7 +403,27 @@ func (h *History) query(sh *tsdrv.Shard, opi int, r *gen.Rand, files []tsdrv.Fil
 			calls = append(calls, Call{"count", g})
 		}
 	}
-	lo, hi := pickRange(r, files)
+	c := Check{Op: opi, GroupBy: "host"}
+	mode := r.Intn(8)
+	switch mode {
+	case 0, 1:
+		c.Hint = true
+	case 2:
+		c.Filter = true
+	case 3:
+		c.Bucket = gen.Pick(r, []int{2, 3, 5})
+	}
+	switch r.Intn(10) {
+	case 0, 1:
+		c.GroupBy = "zone" // several series per group: cross-series time ties
+	case 2:
+		c.GroupBy = ""
+	}
+	c.Desc = r.Chance(1, 6)
+	if r.Chance(1, 6) {
+		c.TagFilter = gen.Pick(r, tagFilters)
+	}
+	lo, hi := pickRange(r, files, h.Chunks, c.Bucket)
 	fixed := false
 	fx := os.Getenv("VERIF_FIX")
 	if h.Fix != "" {
@@ -337,9 +433,9 @@ func (h *History) query(sh *tsdrv.Shard, opi int, r *gen.Rand, files []tsdrv.Fil
 	if forceHint {
 		fx = "MULTI:" + strings.TrimPrefix(fx, "MULTIH:")
 	}
-	if strings.HasPrefix(fx, "MULTI:") { // corpus: MULTI:fn:field,fn:field;lo;hi  (shortcut path)
+	if strings.HasPrefix(fx, "MULTI:") { // corpus: MULTI:fn:field,fn:field;lo;hi[;flag,flag]  (shortcut path unless a flag says otherwise)
 		parts := strings.Split(strings.TrimPrefix(fx, "MULTI:"), ";")
-		if len(parts) == 3 {
+		if len(parts) >= 3 {
 			calls = nil
 			for _, cs := range strings.Split(parts[0], ",") {
 				kv := strings.Split(cs, ":")
@@ -349,6 +445,26 @@ func (h *History) query(sh *tsdrv.Shard, opi int, r *gen.Rand, files []tsdrv.Fil
 			lo, _ = strconv.Atoi(parts[1])
 			hi, _ = strconv.Atoi(parts[2])
 			fixed = true
+			c.Hint, c.Filter, c.Bucket, c.Desc, c.GroupBy, c.TagFilter = forceHint, false, 0, false, "host", ""
+			if len(parts) >= 4 {
+				for _, fl := range strings.Split(parts[3], ",") {
+					switch {
+					case fl == "desc":
+						c.Desc = true
+					case fl == "zone":
+						c.GroupBy = "zone"
+					case fl == "nogroup":
+						c.GroupBy = ""
+					case fl == "hint":
+						c.Hint = true
+					case strings.HasPrefix(fl, "tf="):
+						k, _ := strconv.Atoi(strings.TrimPrefix(fl, "tf="))
+						c.TagFilter = tagFilters[k%len(tagFilters)]
+					case strings.HasPrefix(fl, "bucket="):
+						c.Bucket, _ = strconv.Atoi(strings.TrimPrefix(fl, "bucket="))
+					}
+				}
+			}
 		}
 	} else if fx != "" { // corpus cases / debugging aid: field,lo,hi,fn on the shortcut path
 		var a, b, cc int
@@ -356,36 +472,40 @@ func (h *History) query(sh *tsdrv.Shard, opi int, r *gen.Rand, files []tsdrv.Fil
 		if n, _ := fmt.Sscanf(fx, "%d,%d,%d,%s", &a, &b, &cc, &name); n == 4 {
 			lo, hi, fixed = b, cc, true
 			calls = []Call{{name, a}}
+			c.Hint, c.Filter, c.Bucket, c.Desc, c.GroupBy, c.TagFilter = false, false, 0, false, "host", ""
 		}
 	}
-	c := Check{Op: opi, Fn: calls[0].Fn, Field: calls[0].Field, Calls: calls, Lo: lo, Hi: hi}
-	mode := r.Intn(8)
-	if fixed {
-		mode = 7
-		if forceHint {
-			mode = 0
-		}
+	if os.Getenv("VERIF_DESC") != "" {
+		c.Desc = true
 	}
-	switch mode {
-	case 0, 1:
-		c.Hint = true
-	case 2:
-		c.Filter = true
-	case 3:
-		c.Bucket = gen.Pick(r, []int{2, 3, 5})
-	}
+	_ = fixed
+	c.Fn, c.Field, c.Calls, c.Lo, c.Hi = calls[0].Fn, calls[0].Field, calls, lo, hi
 	where := fmt.Sprintf("time >= %d AND time <= %d", tsdrv.TimeOf(lo), tsdrv.TimeOf(hi))
 	if c.Filter {
 		ff := r.Intn(2) // filter on fa_int or fb_float
 		where += fmt.Sprintf(" AND %s >= %d", tsdrv.FieldNames[ff], r.Range(-2, 8))
 	}
+	if c.TagFilter != "" {
+		where += " AND " + c.TagFilter
+	}
 	hint := ""
 	if c.Hint {
 		hint = "/*+ Exact_Statistic_Query */ "
 	}
-	grp := "host"
+	var dims []string
 	if c.Bucket > 0 {
-		grp = fmt.Sprintf("time(%ds), host", c.Bucket)
+		dims = append(dims, fmt.Sprintf("time(%ds)", c.Bucket))
+	}
+	if c.GroupBy != "" {
+		dims = append(dims, c.GroupBy)
+	}
+	grp := ""
+	if len(dims) > 0 {
+		grp = " GROUP BY " + strings.Join(dims, ", ")
+	}
+	orderBy := ""
+	if c.Desc {
+		orderBy = " ORDER BY time DESC"
 	}
 	sel := ""
 	for i, cl := range calls {
@@ -394,7 +514,24 @@ func (h *History) query(sh *tsdrv.Shard, opi int, r *gen.Rand, files []tsdrv.Fil
 		}
 		sel += fmt.Sprintf("%s(%s)", cl.Fn, tsdrv.FieldNames[cl.Field])
 	}
-	c.SQL = fmt.Sprintf("SELECT %s%s FROM m WHERE %s GROUP BY %s", hint, sel, where, grp)
+	c.SQL = fmt.Sprintf("SELECT %s%s FROM m WHERE %s%s%s", hint, sel, where, grp, orderBy)
+	// hosts per group (signatures of the older findings are per series)
+	c.GroupHosts = map[string][]string{}
+	for sr := 0; sr < h.NSer; sr++ {
+		host := "h" + strconv.Itoa(sr)
+		if tagFilterKeeps(c.TagFilter, host) {
+			g := groupOfHost(c.GroupBy, host)
+			c.GroupHosts[g] = append(c.GroupHosts[g], host)
+		}
+	}
+	for sr := 0; sr < h.NSer; sr++ {
+		for k := range h.dupKeys {
+			if k[0] == sr && k[1] >= lo && k[1] <= hi {
+				c.SigDup = append(c.SigDup, "h"+strconv.Itoa(sr))
+				break
+			}
+		}
+	}
 	for _, cl := range calls {
 		if cl.Fn == "first" || cl.Fn == "last" {
 			for _, fl := range files {
@@ -443,13 +580,14 @@ func (h *History) query(sh *tsdrv.Shard, opi int, r *gen.Rand, files []tsdrv.Fil
 	if !c.Compared {
 		c.Skipped = "no hint/filter/bucket and the history has a cross-generation duplicate (excluded by the statement)"
 	}
-	// the paired plain select, one per field: rows per group
+	// the paired plain select, one per field, always grouped by host (so that every row is attributed to its series):
+	// rows per group of the aggregate statement
 	rowsByField := map[int]map[string][]PRow{}
 	for _, cl := range calls {
 		if _, ok := rowsByField[cl.Field]; ok {
 			continue
 		}
-		plain := fmt.Sprintf("SELECT %s FROM m WHERE %s GROUP BY host", tsdrv.FieldNames[cl.Field], where)
+		plain := fmt.Sprintf("SELECT %s FROM m WHERE %s GROUP BY host%s", tsdrv.FieldNames[cl.Field], where, orderBy)
 		if c.Plain != "" {
 			c.Plain += " ; "
 		}
@@ -466,7 +604,7 @@ func (h *History) query(sh *tsdrv.Shard, opi int, r *gen.Rand, files []tsdrv.Fil
 				continue
 			}
 			t := tsdrv.IdxOf(pr.Time)
-			g := hostOfTags(pr.Tags)
+			g := groupOfHost(c.GroupBy, hostOfTags(pr.Tags))
 			if c.Bucket > 0 {
 				g += "/" + strconv.Itoa(bucketOf(t, c.Bucket))
 			}
@@ -474,44 +612,101 @@ func (h *History) query(sh *tsdrv.Shard, opi int, r *gen.Rand, files []tsdrv.Fil
 		}
 		rowsByField[cl.Field] = m
 	}
+	// output columns are positional: one per call, in statement order; mean(x) takes two (sum(x), count(x))
+	colOf := make([]int, len(calls))
+	ncols := 0
+	for i, cl := range calls {
+		colOf[i] = ncols
+		ncols++
+		if cl.Fn == "mean" {
+			ncols++
+		}
+	}
 	type part struct {
 		v int64
 		t int
 	}
-	for ci, cl := range calls {
-		fn, f := cl.Fn, cl.Field
-		rowsOf := rowsByField[f]
+	aggGroup := func(ar engine.VerifAggRow) string {
+		g := "*"
+		switch c.GroupBy {
+		case "host":
+			g = ar.Tags["host"]
+		case "zone":
+			g = ar.Tags["zone"]
+		}
+		if c.Bucket > 0 {
+			g += "/" + strconv.Itoa(bucketOf(tsdrv.IdxOf(ar.Time), c.Bucket))
+		}
+		return g
+	}
+	// collect the partial results of output column `col` per group
+	collect := func(col int, f int, isCount bool) map[string][]part {
 		parts := map[string][]part{}
 		for _, ar := range aggRows {
-			if len(ar.Cells) != len(calls) {
+			if len(ar.Cells) != ncols || col >= len(ar.Cells) {
 				c.Fail = fmt.Sprintf("aggregate row with %d cells", len(ar.Cells))
 				break
 			}
-			cell := ar.Cells[ci]
+			cell := ar.Cells[col]
 			if cell.Nil {
 				continue
 			}
-			g := hostOfTags(ar.Tags)
-			t := tsdrv.IdxOf(cell.Time)
-			if c.Bucket > 0 {
-				g += "/" + strconv.Itoa(bucketOf(tsdrv.IdxOf(ar.Time), c.Bucket))
-			}
-			if os.Getenv("VERIF_DEBUG") != "" && fn != "count" {
-				fmt.Fprintf(os.Stderr, "DBG %s col=%d group=%s S=%q I=%d rowtime=%d celltime=%d hasct=%v\n", c.SQL, ci, g, cell.S, cell.I, tsdrv.IdxOf(ar.Time), t, cell.HasCT)
-			}
 			var v int64
-			if fn == "count" {
+			if isCount {
 				v = cell.I
 			} else {
 				v = cellCode(f, cell)
 			}
-			parts[g] = append(parts[g], part{v, t})
+			parts[aggGroup(ar)] = append(parts[aggGroup(ar)], part{v, tsdrv.IdxOf(cell.Time)})
+		}
+		return parts
+	}
+	combine := func(fn string, ps []part) (int64, int, bool) {
+		if len(ps) == 0 {
+			return 0, -1, true
+		}
+		v, t := ps[0].v, ps[0].t
+		for _, p := range ps[1:] {
+			switch fn {
+			case "count", "sum":
+				v += p.v
+			case "min":
+				if p.v < v {
+					v, t = p.v, p.t
+				}
+			case "max":
+				if p.v > v {
+					v, t = p.v, p.t
+				}
+			case "first":
+				if p.t < t {
+					v, t = p.v, p.t
+				}
+			case "last":
+				if p.t > t {
+					v, t = p.v, p.t
+				}
+			}
+		}
+		return v, t, false
+	}
+	for ci, cl := range calls {
+		fn, f := cl.Fn, cl.Field
+		rowsOf := rowsByField[f]
+		var parts, cparts map[string][]part
+		if fn == "mean" {
+			parts, cparts = collect(colOf[ci], f, false), collect(colOf[ci]+1, f, true)
+		} else {
+			parts = collect(colOf[ci], f, fn == "count")
 		}
 		groups := map[string]bool{}
 		for g := range rowsOf {
 			groups[g] = true
 		}
 		for g := range parts {
+			groups[g] = true
+		}
+		for g := range cparts {
 			groups[g] = true
 		}
 		var names []string
@@ -521,33 +716,18 @@ func (h *History) query(sh *tsdrv.Shard, opi int, r *gen.Rand, files []tsdrv.Fil
 		sort.Strings(names)
 		for _, g := range names {
 			a := Agg{Group: g, Rows: rowsOf[g], T: -1, Col: ci, Fn: fn, Field: f}
-			ps := parts[g]
-			if len(ps) == 0 {
-				a.Null = true
-			} else {
-				a.V, a.T = ps[0].v, ps[0].t
-				for _, p := range ps[1:] {
-					switch fn {
-					case "count", "sum":
-						a.V += p.v
-					case "min":
-						if p.v < a.V {
-							a.V, a.T = p.v, p.t
-						}
-					case "max":
-						if p.v > a.V {
-							a.V, a.T = p.v, p.t
-						}
-					case "first":
-						if p.t < a.T {
-							a.V, a.T = p.v, p.t
-						}
-					case "last":
-						if p.t > a.T {
-							a.V, a.T = p.v, p.t
-						}
-					}
+			cfn := fn
+			if fn == "mean" {
+				cfn = "sum"
+				var cnull bool
+				a.Cnt, _, cnull = combine("count", cparts[g])
+				if cnull {
+					a.Cnt = 0
 				}
+			}
+			a.V, a.T, a.Null = combine(cfn, parts[g])
+			if a.Null {
+				a.V, a.T = 0, -1
 			}
 			// DIRECT ORACLE: the function over the rows the plain select returns for this field
 			rows := rowsOf[g]
@@ -564,14 +744,14 @@ func (h *History) query(sh *tsdrv.Shard, opi int, r *gen.Rand, files []tsdrv.Fil
 					} else {
 						ok = !a.Null && a.V == want
 					}
-				case "sum":
+				case "sum", "mean":
 					for _, x := range rows {
 						want += x.V
 					}
 					if wantNull {
-						ok = a.Null
+						ok = a.Null && (fn == "sum" || a.Cnt == 0)
 					} else {
-						ok = !a.Null && a.V == want
+						ok = !a.Null && a.V == want && (fn == "sum" || a.Cnt == int64(len(rows)))
 					}
 				case "min", "max":
 					if wantNull {
@@ -586,6 +766,9 @@ func (h *History) query(sh *tsdrv.Shard, opi int, r *gen.Rand, files []tsdrv.Fil
 						ok = !a.Null && a.V == want
 					}
 				case "first", "last":
+					// first = the value with the smallest time, last = the greatest time, whatever the ORDER BY (documented
+					// meaning; the executor's own FirstReduce / LastReduce compare times); rows of several series with the same
+					// time: any of them
 					if wantNull {
 						ok = a.Null
 					} else {
@@ -645,6 +828,9 @@ func runHistoryFix(idx int, work string, nser int, nodup bool, ops []Op, qr *gen
 	gen_ := 0
 	firstGen := map[[2]int]int{}
 	h.mem = map[[2]int]int{}
+	h.seenChunk = map[string]bool{}
+	h.dupKeys = map[[2]int]bool{}
+	cr := gen.FromEnv(uint64(7007 + idx))
 	for i := range ops {
 		op := &ops[i]
 		switch op.K {
@@ -653,6 +839,7 @@ func runHistoryFix(idx int, work string, nser int, nodup bool, ops []Op, qr *gen
 				k := [2]int{r.S, r.T}
 				if g0, ok := firstGen[k]; ok && g0 != gen_ {
 					h.Dup = true
+					h.dupKeys[k] = true
 				} else if !ok {
 					firstGen[k] = gen_
 				}
@@ -702,6 +889,11 @@ func runHistoryFix(idx int, work string, nser int, nodup bool, ops []Op, qr *gen
 					if s.Segments > h.MaxSegs {
 						h.MaxSegs = s.Segments
 					}
+				}
+			}
+			if os.Getenv("VERIF_NOCHUNKS") == "" {
+				if err := h.dumpChunks(sh, cr); err != nil && h.ChunkErr == "" {
+					h.ChunkErr = err.Error()
 				}
 			}
 			nq := 6
@@ -766,6 +958,15 @@ func main() {
 			out := runHistoryFix(100000+k, work, h.NSer, h.NoDup, h.Ops, gen.FromEnv(uint64(9009+k)), h.Fix)
 			_ = enc.Encode(out)
 		}
+	}
+	if os.Getenv("VERIF_NOMEM") == "" {
+		mr := gen.FromEnv(4242)
+		nm := 4 * n
+		var mcs []MemCase
+		for i := 0; i < nm; i++ {
+			mcs = append(mcs, runMemCase(mr.Fork()))
+		}
+		_ = enc.Encode(map[string]interface{}{"memcases": mcs})
 	}
 	master := gen.FromEnv(9)
 	for i := 0; i < n; i++ {
